@@ -58,7 +58,10 @@ def instances(tier, seed):
         return max(8, 3 + sum(big.get(m, 1) for m in ms) + 1)
     for m in names:
         out.append(dict(name="member %s" % m, params=dict(members=[m], n=need([m])), expect=["accept"]))
-    pairs = [(a, b) for a in names for b in names if a != b and not dict((m[0], m[3]) for m in MEMBERS)[a]]
+    # NullTerminated with include=True / consume=False is not its own inverse by documented design (build appends a terminator the value
+    # already holds / leaves the terminator to the next member): such a member is only placed last, where the probe byte follows it
+    asym = ("nt_inc", "nt_nc", "nt_inc_nc")
+    pairs = [(a, b) for a in names for b in names if a != b and not dict((m[0], m[3]) for m in MEMBERS)[a] and a not in asym]
     rnd.shuffle(pairs)
     for a, b in (pairs[:90] if tier == "quick" else pairs):
         out.append(dict(name="members %s,%s" % (a, b), params=dict(members=[a, b], n=need([a, b])), expect=["accept"]))
